@@ -30,8 +30,8 @@ def summarize(results):
             if it.get("trusted"):
                 trusted.append("outlined fragment (R7, not verified) in unit %s: %s" % (r["unit"], " ".join(it["text"].split())[:200]))
                 continue
-            if it["item"].startswith("fn "):
-                fns.append({"unit": r["unit"], "function": it["item"][3:], "file": it["file"], "line": it.get("line"),
+            if it["item"].startswith("fn ") or it["item"].startswith("block "):
+                fns.append({"unit": r["unit"], "function": it["item"][3:] if it["item"].startswith("fn ") else it["item"] + " (block of a function, rule B1)", "file": it["file"], "line": it.get("line"),
                             "source_sha256_16": it["sha256"], "text_identical_to_template_skeleton": it["identical"],
                             "annotation_blocks": it.get("annotation_blocks", 0)})
             for ru in it.get("rules", []):
